@@ -163,3 +163,41 @@ func VxH_MapOf_stalledGrow(rop, mode, slots int) {
 		VxAssert(size == c.count(), "stalled grow: Size reports the number of entries")
 	}
 }
+
+// VxH_Map_resizeStep / VxH_MapOf_resizeStep (C11): one whole-table grow or
+// shrink, started directly, from an arbitrary valid table (chains with holes
+// and empty middle buckets included). The copy must carry over exactly the
+// content and re-establish the representation invariant.
+func VxH_Map_resizeStep(hint, tableLen, chain, minLen int) {
+	m, c := vxArbMap(tableLen, chain, minLen)
+	t := (*mapTable)(atomic.LoadPointer(&m.table))
+	k := VxStr("k")
+	VxReach("pre-state built")
+	m.resize(t, mapResizeHint(hint))
+	VxReach("resize returned")
+	nt := (*mapTable)(atomic.LoadPointer(&m.table))
+	VxObserve("len", len(nt.buckets))
+	if mapResizeHint(hint) == mapGrowHint {
+		VxAssert(len(nt.buckets) == 2*tableLen, "grow: table doubled")
+	} else {
+		VxAssert(len(nt.buckets) == tableLen || len(nt.buckets) == tableLen/2, "shrink: table kept or halved")
+	}
+	vxCheckMap(m, c, k)
+}
+
+func VxH_MapOf_resizeStep(hint, tableLen, chain, minLen, slots int) {
+	m, c := vxArbMapOf[int, int](tableLen, chain, minLen, slots, slots, VxIntHasher, vxIntKey, vxIntVal)
+	t := (*mapOfTable[int, int])(atomic.LoadPointer(&m.table))
+	k := VxInt("k")
+	VxReach("pre-state built")
+	m.resize(t, mapResizeHint(hint))
+	VxReach("resize returned")
+	nt := (*mapOfTable[int, int])(atomic.LoadPointer(&m.table))
+	VxObserve("len", len(nt.buckets))
+	if mapResizeHint(hint) == mapGrowHint {
+		VxAssert(len(nt.buckets) == 2*tableLen, "grow: table doubled")
+	} else {
+		VxAssert(len(nt.buckets) == tableLen || len(nt.buckets) == tableLen/2, "shrink: table kept or halved")
+	}
+	vxCheckMapOf(m, c, k)
+}
